@@ -152,6 +152,37 @@ class BridgeSys:
                 await asyncio.sleep(0)
             if self.rig.invocations != after_stop:
                 self.fail("callback-after-stop-returned", 0, self.rig.invocations - after_stop)
+        elif a == "rival_start":
+            # another SwitcherBridge object configured with the same ports: while this one runs its start must fail with
+            # OSError and must not disturb this bridge (the invariants below re-check is_running, the ports and delivery)
+            from aioswitcher.bridge import SwitcherBridge
+            rival_calls = []
+            rival = SwitcherBridge(rival_calls.append, list(self.ports))
+            try:
+                await rival.start()
+                outcome = "started"
+            except OSError:
+                outcome = "OSError"
+            except Exception as exc:  # noqa
+                outcome = f"{type(exc).__name__}: {exc}"
+            finally:
+                if outcome == "started":
+                    await rival.stop()
+            if self.running or self.occupied:
+                if outcome != "OSError":
+                    self.fail("second-bridge-starts-on-ports-in-use", "OSError", outcome)
+                if getattr(rival, "is_running", None) is not False:
+                    self.fail("second-bridge/is_running-after-failed-start", False, rival.is_running)
+            elif outcome != "started":
+                self.fail("second-bridge-cannot-start-on-free-ports", "started", outcome)
+            if self.running:
+                before = self.rig.invocations
+                for port in self.ports:
+                    self.rig.tx.sendto(self.datagram(), ("127.0.0.1", port))
+                dead = await self.rig.barrier()
+                if dead or self.rig.invocations != before + len(self.ports):
+                    self.fail("bridge-disturbed-by-another-instance", {"callbacks": len(self.ports)},
+                              {"callbacks": self.rig.invocations - before, "dead_ports": len(dead)})
         elif a == "occupy":
             i = step["port"] % self.nports
             if i not in self.occupied:
@@ -290,6 +321,10 @@ def machine_factory(nports):
             @rule(port=st.integers(0, nports - 1))
             def release(self, port):
                 self.do({"action": "release", "port": port})
+
+            @rule()
+            def rival_start(self):
+                self.do({"action": "rival_start"})
 
             @rule(n=st.integers(1, 3))
             def cycle(self, n):
